@@ -601,12 +601,29 @@ def run(ctx):
         yield "RandomState", np.random.RandomState(seed), np.random.RandomState(seed)
         yield "Generator", np.random.default_rng(seed), np.random.default_rng(seed)
 
-    def degenerate_case(name, args, call, reference, expect_error=False, dtype=None):
+    def degenerate_case(name, args, call, reference, expect_error=False, dtype=None, fixed_seed=None):
         """call(rs) -> array-like (or tuple of arrays); reference(ref) -> expected value from the documented draws"""
-        for kind, rs, ref in both_streams(rng.randrange(10**6)):
-            inp = {"call": name, "args": args, "stream": kind}
-            ctx.case(("degenerate", name, json.dumps(jsonable(args), sort_keys=True), kind), nontrivial=True)
+        seed0 = fixed_seed if fixed_seed is not None else rng.randrange(10**6)
+        if not expect_error:
+            # equal integer seeds with DIFFERENT global numpy streams must give identical output
+            try:
+                np.random.seed(rng.randrange(2**31))
+                o1 = call(seed0)
+                np.random.seed(rng.randrange(2**31))
+                o2 = call(seed0)
+                l1 = list(o1) if isinstance(o1, tuple) else [o1]
+                l2 = list(o2) if isinstance(o2, tuple) else [o2]
+                ctx.case(("degenerate-int", name, json.dumps(jsonable(args), sort_keys=True), seed0), nontrivial=True)
+                if len(l1) != len(l2) or not all(np.array_equal(np.asarray(a_), np.asarray(b_)) for a_, b_ in zip(l1, l2)):
+                    ctx.fail("seed_reproducible", "%s%r: identical integer seeds give different output (global numpy stream used?)" % (name, args),
+                             {"call": name, "args": args, "seed": seed0})
+            except Exception as e:
+                ctx.fail("degenerate_size", "%s%r with an integer seed raises %r" % (name, args, e), {"call": name, "args": args, "seed": seed0})
+        for kind, rs, ref in both_streams(seed0):
+            inp = {"call": name, "args": args, "stream": kind, "seed": seed0}
+            ctx.case(("degenerate", name, json.dumps(jsonable(args), sort_keys=True), kind, seed0), nontrivial=True)
             ctx.count("degenerate:%s" % name)
+            np.random.seed(rng.randrange(2**31))     # a generator that falls back to the global stream cannot match the reference
             try:
                 got = call(rs)
             except ValueError as e:
@@ -758,6 +775,50 @@ def run(ctx):
             A[ones, np.arange(n)] = 1
             return (A, B)
         degenerate_case("unit_vector_game", {"n": n}, lambda rs, n=n: tuple(p.payoff_array for p in unit_vector_game(n, random_state=rs).players), ref_uv)
+    # --- unit_vector_game(avoid_pure_nash=True): rejection loops are functions of the passed stream; small n, many seeds
+    redraw_total = [0, 0]
+    for n in (2, 3, 4):
+        for seed in (list(range(1, 13)) if n <= 3 else [rng.randrange(10**6) for _ in range(3)]):
+            def ref_uv_avoid(ref, n=n):
+                B = ref.random((n, n))
+                sub = B < B.max(axis=0)
+                while (sub.sum(axis=1) == 0).any():
+                    B = ref.random((n, n))
+                    sub = B < B.max(axis=0)
+                    redraw_total[0] += 1
+                A = np.zeros((n, n))
+                for i in range(n):
+                    one = rng_integers(ref, n)
+                    while not sub[i, one]:
+                        one = rng_integers(ref, n)
+                        redraw_total[1] += 1
+                    A[one, i] = 1
+                return (A, B)
+            degenerate_case("unit_vector_game", {"n": n, "avoid_pure_nash": True},
+                            lambda rs, n=n: tuple(p.payoff_array for p in unit_vector_game(n, avoid_pure_nash=True, random_state=rs).players),
+                            ref_uv_avoid, fixed_seed=seed)
+    ctx.count("unit_vector:avoid:matrix_redraws(reference)", redraw_total[0])
+    ctx.count("unit_vector:avoid:index_redraws(reference)", redraw_total[1])
+    if redraw_total[0] == 0:
+        ctx.notes.append("no payoff-matrix redraw occurred in unit_vector_game(avoid_pure_nash=True) cases")
+    # --- remaining option paths: sparse formats, sa_pair / sparse DP with beta given or drawn, scale, blotto mu, ranking steps
+    for fmt in ("csr", "csc", "coo"):
+        for n, k in [(3, 2), (4, None), (3, 1)]:
+            degenerate_case("random_stochastic_matrix", {"n": n, "k": k, "sparse": True, "format": fmt},
+                            lambda rs, n=n, k=k, fmt=fmt: random_stochastic_matrix(n, k, sparse=True, format=fmt, random_state=rs).toarray(),
+                            lambda ref, n=n, k=k: ref_rsm(ref, n, n, k))
+    for ns, na, k, beta, scale, sparse, sa_pair in [(2, 2, None, None, 2, False, True), (3, 2, 2, 0.9, 1, True, True), (2, 3, 1, None, 0.5, True, False),
+                                                    (3, 1, None, 0.0, 1, False, True), (2, 2, 2, None, 1, False, False)]:
+        def ref_ddp2(ref, ns=ns, na=na, k=k, beta=beta, scale=scale):
+            R = scale * ref.standard_normal(ns * na)
+            Qm = ref_rsm(ref, ns * na, ns, k)
+            b = ref.random() if beta is None else beta
+            return (R, Qm, np.array(b))
+        degenerate_case("random_discrete_dp", {"num_states": ns, "num_actions": na, "k": k, "beta": beta, "scale": scale, "sparse": sparse, "sa_pair": sa_pair},
+                        lambda rs, ns=ns, na=na, k=k, beta=beta, scale=scale, sparse=sparse, sa_pair=sa_pair:
+                        (lambda d_: (np.asarray(d_.R).reshape(-1), (d_.Q.toarray() if sp.issparse(d_.Q) else np.asarray(d_.Q)).reshape(ns * na, ns), np.array(d_.beta)))(
+                            random_discrete_dp(ns, na, beta=beta, k=k, scale=scale, sparse=sparse, sa_pair=sa_pair, random_state=rs)),
+                        ref_ddp2)
     for n, k in [(1, 1), (2, 1), (2, 2), (3, 3), (4, 2)]:
         def ref_tgame(ref, n=n, k=k):
             r = ref.random(n * (n - 1) // 2)
